@@ -751,7 +751,7 @@ func init() {
 				{Name: "readers", Desc: "two threads reading one stream when it ends (peer close / local Close, after zero or one packet): every Read returns", Body: readersBody, MaxDev: pre - 1, ShardLevels: 2, Budget: b, Env: env},
 				{Name: "expect", Desc: "two Expect calls for the same stream (take-over), then the peer opens it", Body: expectBody, MaxDev: pre, ShardLevels: 2, Budget: b, Env: env},
 				{Name: "wrap", Desc: "65541 one-byte packets in each direction and carrier: the sequence number wraps around", Body: wrapBody, MaxDev: 0, ShardLevels: 1, Workers: 4, Budget: b, Env: env},
-				drv.RacePart(4*pre, pre, b, openRefusedBody, openThenReceiveBody, receiveBody, badPacketsBody(nb), localCloseBody, closeDrainBody, peerCloseBody, expectBody),
+				drv.RacePart(4*pre, pre, b, openRefusedBody, openThenReceiveBody, receiveBody, badPacketsBody(nb), localCloseBody, closeDrainBody, peerCloseBody, expectBody, readersBody),
 			}
 		},
 	})
